@@ -281,6 +281,10 @@ def run(ctx):
            '' if ok else ('QueryType.__eq__ compares `%s`, which maps different limits to the same value (0 and None): `x in q.limit(0)` and `x in q` then share one cache key and '
                           'one of them is answered with the other\'s SQL' % norm(lossy[0][1])) if lossy else 'QueryType.__eq__ does not compare the limits of both operands')
 
+    # the ordered result R of a query is what its slices are compared with: no QueryResult method reorders the list that the session result cache
+    # hands out again for the same query (C05's alias rule, evaluated here as well)
+    from .C05 import alias_rule
+    alias_rule(ctx, 'C24-ALIAS')
     # ---------------------------------------------------------------- ZERO
     # a limit is None (no limit) or a number, and 0 is a number ("no rows"): at the query / translator level every test on a limit is a comparison
     # (`is None`, `is not None`, `== 0`, ...).  A truthiness test treats limit 0 as "no limit": `p in q.limit(0)` then matches every row of q.
